@@ -22,7 +22,18 @@ call_kernel and DirectModel, to rounding through the SasView wrapper (which carr
 along) - by orientation values, their dispersity, and both combined with size dispersity.
 
 Part C (kind "unoriented"): 2-D results of every model without orientation parameters are equal on a
-set of detector points of identical |q| and equal to the 1-D result at that |q|.
+set of detector points of identical |q| and equal to the 1-D result at that |q|.  Models that supply
+their own Iqxy(qx, qy) (line, micromagnetic_FF_3D: documented 2-D definitions of their own, the
+kernel's CALL_IQ_XY route) are outside this clause; they are counted as "own-Iqxy-skipped".
+
+Branches found in the code beyond the DESIGN alphabet:
+* an angle WITHOUT jitter only stays at zero jitter through the kernel's explicit reset when it has no
+  dispersity-loop slot, which needs max_pd other parameters dispersed (size alternative "fill");
+* the rotation/jitter code is instantiated a second time in the Imagnetic kernel (dimension "kernel":
+  an M0 of 1e-300 selects it without changing any SLD, so the same oracle applies);
+* a jitter mesh truncated by the +-360 degree limits, and |cos(dtheta)| beyond 90 degrees.
+An EMPTY angle mesh (e.g. rectangle, npts=2, nsigmas=3) is not a mesh of jitter angles and is not
+enumerated.
 """
 import itertools
 import math
